@@ -335,7 +335,7 @@ def check(ctx):
                     why.append("`{` must be written as ' ', '{', line break; found %s" % seqp)
             ctx.expect(not why, "C15.7", key + "/level", site(arm), "indent level changes %s exactly where a multi-line scope opens/closes, before the line break" % exp["delta"],
                        "; ".join(why) + " [conditions %s]" % conds)
-    ctx.count("paths through the character dispatch", n_paths, 12)
+    ctx.count("paths through the character dispatch", n_paths, 9)
     ctx.count("arms of the character dispatch", len(arms_seen), 8)
     ctx.expect("_" in arms_seen or "$" in arms_seen, "C15.3", "default-arm", site(m), "a default arm copies every other character", "no default arm")
     helper(ctx, indent_fn)
@@ -387,7 +387,7 @@ def totality(ctx, fn, level_id):
     rec = [c for c in k10.sccs(g) if any(m in reach for m in c)]
     ctx.expect(not rec, "C15.4", "no-recursion", fn["sp"], "no recursion in the formatter", "recursive cycle: %s" % rec)
     inv = [s for s in k10.inventory(P, (CR,)) if s.owner in reach]
-    ctx.count("panic-capable sites in the formatter", len(inv), 8)
+    ctx.count("panic-capable sites in the formatter", len(inv), 6)
     for s in inv:
         if s.kind == "assert" and s.callee.startswith("Overflow:"):
             continue
